@@ -418,6 +418,8 @@ func c14errClass(s string) string {
 		return "err:no-versions"
 	case strings.Contains(s, "could not find version data"):
 		return "err:missing-blob"
+	case strings.Contains(s, "invalid secret path"):
+		return "err:badpath"
 	case strings.Contains(s, "Field validation failed"):
 		return "err:field"
 	case strings.Contains(s, "read-only") || strings.Contains(s, "read only"):
@@ -783,8 +785,28 @@ func (g *c14gen) mcasField(path string) string {
 	return vh.I(int64(g.rng.Intn(4)))
 }
 
+// c14alias: a name that is not in cleaned form but cleans to secret name p ("p/", "/p", doubled slash)
+func c14alias(rng *vh.Rand, p string) string {
+	switch rng.Intn(4) {
+	case 0:
+		return p + "/"
+	case 1:
+		return "/" + p
+	case 2:
+		if i := strings.Index(p, "/"); i > 0 {
+			return p[:i] + "/" + p[i:]
+		}
+		return p + "//"
+	}
+	return "//" + p
+}
+
 func (g *c14gen) next() c14op {
 	p := g.rng.Pick(g.paths)
+	if g.rng.Chance(5) {
+		// a request under an alias of the secret's name: refused, the secret untouched
+		p = c14alias(g.rng, p)
+	}
 	switch r := g.rng.Intn(100); {
 	case r < 30:
 		return c14op{kind: "write", path: p, cas: g.casField(p), data: g.dataField(false)}
